@@ -235,6 +235,8 @@ def make_store():
     ds = Datastore(MemoryStorage, testing=True)
     ds.create_bucket("win", "currentwindow", "c", "host1")
     ds.create_bucket("afk", "afkstatus", "c", "host1")
+    ds.create_bucket("win-host2", "currentwindow", "c", "host2")
+    ds["win-host2"].insert(Event(timestamp=T0 + timedelta(minutes=5), duration=timedelta(minutes=3), data={"app": "b0", "title": "other"}))
     apps = ["a0", "a1", "a0", "a2", "a1", "a0"]
     for i, app in enumerate(apps):
         ds["win"].insert(Event(timestamp=T0 + timedelta(minutes=10 * i), duration=timedelta(minutes=7),
@@ -330,6 +332,9 @@ def ref_eval_real(prog, value_semantics=False):
             return {kk: ev(x) for kk, x in e[1]}
         ent = reg[e[1]]
         args = [ev(x) for x in e[2]]
+        if e[1] in ("query_bucket", "query_bucket_eventcount", "find_bucket"):
+            # what the three store-reading builtins stand for, written out against the store itself
+            return direct_store_read(ds, e[1], args)
         d = direct_transforms().get(e[1])
         if d is not None:
             # the transform the builtin stands for, applied to the argument values in written order
@@ -347,6 +352,26 @@ def ref_eval_real(prog, value_semantics=False):
         return canon_real(ns["RETURN"])
 
     return guarded(go)
+
+
+def direct_store_read(ds, name, args):
+    from aw_query.exceptions import QueryFunctionException
+
+    if name == "find_bucket":
+        if not (1 <= len(args) <= 2) or not all(isinstance(a, str) for a in args):
+            raise QueryFunctionException("find_bucket: wrong arguments")
+        flt, host = args[0], (args[1] if len(args) > 1 else None)
+        for b, meta in ds.buckets().items():
+            if flt in b and (not host or meta["hostname"] == host):
+                return b
+        raise QueryFunctionException("no bucket matches")
+    if len(args) != 1 or not isinstance(args[0], str):
+        raise QueryFunctionException(name + ": wrong arguments")
+    if args[0] not in ds.buckets():
+        raise QueryFunctionException("no such bucket")
+    if name == "query_bucket":
+        return ds[args[0]].get(-1, T0, T1)
+    return ds[args[0]].get_eventcount(T0, T1)
 
 
 def direct_transforms():
